@@ -34,7 +34,7 @@ THEOREMS = {
     "C04_train_noninterference_sdc": "two row lists that differ only in masked observation values give equal SparseDrugCombo training data (train_model path), every oracle / float32 cast",
     "C04_train_noninterference_interaction": "same for SparseDrugComboInteraction (lookup and training arrays), for every setting of the three switches, i.e. as coded and repaired",
     "C04_trained_exactly_once_sdc": "SparseDrugCombo training data = one (logit(clip(float32 y)), sample, d1, d2) per observed row, in order",
-    "C04_sdc_transform_documented": "on a non-negative observation whose cast is not NaN the transform is the finite value logit(clip(cast y, lo, hi)) with lo,hi from Generated/Consts.v",
+    "C04_sdc_transform_documented": "on a non-negative observation whose cast is not NaN the transform is the finite value logit(clip(cast y, lo, hi)) with lo,hi from Generated/ConstsClip.v",
     "C04_trained_exactly_once_interaction": "repaired mask: training data = one (logit(float32 y), sample, d1, d2) per observed row without a control id, in order; nothing else",
     "C04_single_effect_documented": "the lookup value of (sample, non-control treatment) is the mean over the observed single-agent rows of that sample and treatment",
     "C04_trained_exactly_once_interaction_refuted": "AS CODED the interaction model trains on an all-control row and on no combination row (witness)",
@@ -88,12 +88,12 @@ EXPLANATION = ("Model: Model/TrainScreen.v (id-level rows of a screen built by t
                "treatment_ids.shape[1] = the arity parameter; a.all() / a.any() / np.any(a) = forallb / existsb; `a >= 0.0` = elementwise "
                "o_nonneg (NaN >= 0 False, -inf False); a.astype(np.float32) = elementwise cast32 r32 (r32 any function: the float32 "
                "rounding is a parameter of every theorem); np.clip(a, a_min=lo, a_max=hi) = elementwise oclip_at lo hi (NaN propagates, "
-               "infinities clipped; lo, hi are the float literals of the call as exact decimals, proved equal to Generated/Consts' bounds "
+               "infinities clipped; lo, hi are the float literals of the call as exact decimals, proved equal to Generated/ConstsClip's bounds "
                "by conversion); logit(a) = elementwise ologit orc (0 -> -inf, 1 -> +inf, outside [0,1] and NaN -> NaN, (0,1) the oracle); "
                "np.isnan(a) = elementwise o_isnan; zip of 4 / 5 arrays = zip4 / zip5 (stops at the shortest); dd[i] on an id row = id_at "
                "(IndexError tag 4); a[mask] = select (entries where the mask is True); a[mask, :] likewise for rows; a[mask, 0] / a[mask, 1] "
                "= column 0 / 1 of the selected rows; np.sum(a == CONTROL_SENTINEL_VALUE, axis=1) = controls per row (sentinel from "
-               "Generated/Consts.v); `counts == n` and `a == v` on integer arrays = elementwise =?; a & b = elementwise andb; "
+               "Generated/ConstsClip.v); `counts == n` and `a == v` on integer arrays = elementwise =?; a & b = elementwise andb; "
                "np.sort(x, axis=1)[:, -1] = the row maxima; np.unique(a) = sort_uniq Z.compare (sorted distinct); a.flatten() = concat; "
                "np.mean(a) = omean; the literal 1.0 = OFin 1; result[(s, t)] = v = PyRt.dict2_set (insertion-ordered dict keyed by pairs); "
                "d[k].append(v) on the three index dictionaries = PyRt.dict_append, trusting that __init__ creates them as "
